@@ -24,7 +24,7 @@ pub fn prestate(a: &[&str]) -> Option<String> {
         }
     }
     let mut answers = vec![false; ops.len()];
-    verif::reset();
+    crate::vreset();
     let (n, s1, s2) = prestate_run(skips, skipped, &ops, &mut answers);
     let ans: String = answers[..n].iter().map(|&b| if b { '1' } else { '0' }).collect();
     let ans = if ans.is_empty() { "-".to_string() } else { ans };
@@ -47,7 +47,7 @@ pub fn ppreal(a: &[&str]) -> Option<String> {
     let hay = parse_bytes(a[8])?;
     let pn = Placed::new(&sneedle, a[5].parse().ok()?);
     let ph = Placed::new(&hay, a[7].parse().ok()?);
-    verif::reset();
+    crate::vreset();
     let pair = match Pair::with_indices(&needle, i1, i2) {
         None => return Some("ok badpair steps=0 loads=? minlen=0".to_string()),
         Some(p) => p,
